@@ -15,24 +15,23 @@ PROPS = {
         assumptions=["clone_is_id::<T>(): Clone on stack elements returns an equal value (a `requires` of Stack::pop; true for pest's SpanOrLiteral and i32)",
                      "Vec lengths fit usize (vstd); std contracts of Vec::drain / Vec::extend / Iterator::rev as stated on the vx_* helpers",
                      "Verus 0.2026.09.13 + Z3, vstd specifications of Vec/Option; the extractor (token-level copy + rewrite rules R1,R2,R3)"],
-        not_covered=["impl Index<Range<usize>> for Stack<T> (delegates to Vec::index; trait impls cannot carry a requires clause in Verus)",
-                     "impl Default for Stack<T> (delegates to new)"],
+        not_covered=["impl Default for Stack<T> (delegates to new)"],
     ),
 }
 CORE_ASSUME = [
     "Verus 0.2026.09.13 + Z3 + vstd's specifications of core/alloc (Vec, Option, Result, Box, Rc, str, Chars, slices) and its UTF-8 theory",
-    "the extractor: token-level copy of the listed functions from /repo on every run plus the closed rewrite table (R1,R2,R3,R4,R9,R10,R15,R16,R17,R18,R25,R26,R27,R28,R29,R30); generated file and line map kept in /verif/out",
+    "the extractor: token-level copy of the listed functions from /repo on every run plus the closed rewrite table (R1,R2,R3,R4,R9,R10,R15,R16,R17,R18,R25,R26,R27,R28,R29,R30,R38); generated file and line map kept in /verif/out",
     "std contracts restated on trusted helpers (external_body, body = the original std call): Vec::drain/extend/rev, Vec::splice(n.., w) with the result dropped, a relaxed load of a global atomic returns some value, sort+dedup, String::from, str indexing by a range (vstd specifies only its precondition), str::get -> SliceIndex::get, str::eq_ignore_ascii_case",
     "a str occupies at most isize::MAX bytes; a Vec<R> holds at most isize::MAX elements; stack depth fits i32 in normalize_index",
-    "Clone returns an equal value for stack elements (SpanOrLiteral) and for rule types (Copy)",
+    "Clone returns an equal value for stack elements (SpanOrLiteral), for BorrowedOrArc (a copied &str or a cloned Arc<String>) and for rule types (Copy); the explicit Deref::deref call on an Arc returns the pointee (assume_specification; vstd specifies only the *a form)",
     "closures passed to combinators are 'lawful': their precondition is implied by the state invariant and they satisfy the frame law and the refusal law (every operation is proved to satisfy both, given that its closure arguments do: induction over call trees). Closures whose preconditions need more than the invariant (stack_peek/stack_pop on a possibly empty stack) and Result::or_else chains (refusal law) are outside this class",
     "pointer identity of input slices (ptr::eq in Position::span) is not modelled: value equality of the input is proved instead",
-    "functions with ASSUMED contracts (external_body; not proved): BorrowedOrArc::as_str, SpanOrLiteral::as_borrowed_or_rc, Position::span, Error::new_from_pos*, pairs::new (verified in the pairs unit)",
+    "functions with ASSUMED contracts (external_body; not proved): Position::span (ptr::eq), From<Cow> for BorrowedOrArc (no contract); stubs here that are verified in another unit: Error::new_from_pos* (lines unit), pairs::new (pairs unit)",
     "partial correctness for ParserState::repeat (it legitimately diverges on non-progressing closures)",
     "configurations: C03 is verified twice, with feature memchr OFF (skip_until -> skip_until_basic) and ON (memmem / memchr2 / memchr3 arms under the memchr crate's documented contract, declared on a stand-in module: ASSUMED dependency contract); the other properties use the memchr-OFF configuration; debug_assertions ON (debug_assert operands are proved)",
 ]
 CORE_NOT_COVERED = [
-    "ParserState::stack_push_literal (generic Into<Cow<'static,str>> conversions): not under contract",
+    "the text of a literal pushed by stack_push_literal is named (lit_text), not interpreted: the two generic conversions Into<Cow<'static,str>> -> BorrowedOrArc are one trusted helper (R38); that the pushed text is the caller's string is decided by peek_search only",
     "Result::and_then / or_else are std, not pest; they appear only through the closure laws",
 ]
 
@@ -43,7 +42,7 @@ PROPS["C03"] = dict(
     design_ref="DESIGN.md section 4, C03",
     technique="contract-based deductive verification (Verus): frame law with closure laws on every ParserState combinator, exact functional contracts on the Position matchers over vstd's UTF-8 theory; real code extracted from /repo each run",
     level_text="Unbounded proof for all call trees built from lawful closures and all inputs: every public ParserState operation is verified against the frame law (input, flags, snapshots below entry depth and earlier tokens untouched) given that its closure arguments obey it; failed sequence / any lookahead restore position, tokens (up to node tags, finding F2) and stack; rule emits exactly one balanced Start/End pair around its body's tokens iff it succeeds outside lookahead/atomic; match_string/insensitive/range/char_by/skip/skip_until_basic have exact iff/advance/stay/boundary postconditions proved from vstd's UTF-8 definitions.",
-    level_note="Assumed: vstd specs, std helper contracts (listed in evidence), the lawful-closure hypothesis, 3 external_body functions (Position::span: ptr::eq; BorrowedOrArc::as_str and SpanOrLiteral::as_borrowed_or_rc: Arc deref/clone), the memchr crate's documented contract in the memchr configuration. Every combinator also carries a direct-reading postcondition (sequence, lookahead, optional, repeat as a ghost chain, atomic, restore_on_err, rule, stack_push); stack_match_peek_slice and constrain_idxs are verified from their bodies. stack_push_literal is not under contract. Quick tier adds an enumerative cross-check of PEEK[a..b] / PEEK_ALL / POP_ALL (not counted).",
+    level_note="Assumed: vstd specs, std helper contracts (listed in evidence), the lawful-closure hypothesis, 1 external_body pest function with a contract (Position::span: ptr::eq); BorrowedOrArc::as_str and SpanOrLiteral::as_borrowed_or_rc are verified from their bodies over two std assumptions (Arc::deref returns the pointee, Clone of BorrowedOrArc returns an equal value), the memchr crate's documented contract in the memchr configuration. Every combinator also carries a direct-reading postcondition (sequence, lookahead, optional, repeat as a ghost chain, atomic, restore_on_err, rule, stack_push); stack_match_peek_slice, constrain_idxs and stack_push_literal (always Ok, pushes one Literal entry, nothing else changes; conversions through R38) are verified from their bodies. Quick tier adds an enumerative cross-check of PEEK[a..b] / PEEK_ALL / POP_ALL (not counted).",
     assumptions=CORE_ASSUME, not_covered=CORE_NOT_COVERED,
 )
 PROPS["C04"] = dict(
@@ -94,14 +93,13 @@ PROPS["C10"] = dict(
     kani=["inmod_c10", "lines_enum"], searcher=["lines"],
     design_ref="DESIGN.md section 4, C10",
     technique="contract-based deductive verification (Verus) of the index arithmetic over vstd's UTF-8 theory; bounded Kani harnesses for the iterator-chain functions and an exhaustive native enumeration of short texts for the clauses outside every contract (error construction and rendering)",
-    level_text="Unbounded proof: LineIndex::new records exactly the offsets after every newline character (loop invariant over chars()); LineIndex::line_col returns (1 + newlines before the offset, 1 + characters since the last newline) for every boundary offset inside the indexed prefix; Span::new / Position::new succeed exactly on ordered boundary offsets; merge_spans; find_line_start / find_line_end return exactly the byte-level line start ls / line end le (their iterator chains desugared by R33 over assumed std contracts of CharIndices; a 0x0A byte is proved to occur only as the one-byte character '\\n'); line_of and LinesSpan::next yield exactly the line [ls, le) containing the cursor and advance to the start of the next line.",
-    level_note="Assumed: std contracts only - CharIndices (next / next_back yield (byte offset, char) in order), Peekable, partition_point, chars().count(), str range indexing helper. Position::line_col is verified from its body (chars().peekable() through assumed std contracts of core::iter::Peekable, R31/R32): it returns exactly (1 + newlines, 1 + characters since the last newline) of the characters before the offset. Outside every contract: Error::new_from_pos/new_from_span and Display (format!, String building) - decided only by bounded stand-ins: the lines_search enumeration (every text of <= 5 characters over a 6-character mixed alphabet, every offset and offset pair, all access paths, rendered marker position).",
-    assumptions=["Verus + Z3 + vstd (UTF-8 theory); extractor with rewrites R3,R5,R6,R11,R16,R17,R23",
+    level_text="Unbounded proof: LineIndex::new records exactly the offsets after every newline character (loop invariant over chars()); LineIndex::line_col returns (1 + newlines before the offset, 1 + characters since the last newline) for every boundary offset inside the indexed prefix; Span::new / Position::new succeed exactly on ordered boundary offsets; merge_spans; find_line_start / find_line_end return exactly the byte-level line start ls / line end le (their iterator chains desugared by R33 over assumed std contracts of CharIndices; a 0x0A byte is proved to occur only as the one-byte character '\\n'); line_of, LinesSpan::next and Lines::next yield exactly the line [ls, le) containing the cursor (as a span / as its text) and advance to the start of the next line; lines_span / lines start at the span's start; Error::new_from_pos, new_from_pos_with_parsing_attempts and new_from_span record exactly the given variant, the offset(s) and the (line, column) pair(s) of the definition (a span end at column 1 is reported one column after the character before it - Position::skip_back, verified: goes back exactly n characters).",
+    level_note="Assumed: std contracts only - CharIndices (next / next_back yield (byte offset, char) in order), Peekable, partition_point, chars().count(), str range indexing helper. Position::line_col is verified from its body (chars().peekable() through assumed std contracts of core::iter::Peekable, R31/R32): it returns exactly (1 + newlines, 1 + characters since the last newline) of the characters before the offset. The displayed text fields of the errors go through trusted helpers without a contract (visualize_whitespace, R39 str::replace, R40: the statement run of new_from_span that computes the two text fields) Position::match_char - which only selects the helper - is verified from its body. Outside every contract: those text fields and Display (format!, String building) - decided only by bounded stand-ins: the lines_search enumeration (every text of <= 5 characters over a 6-character mixed alphabet, every offset and offset pair, all access paths, rendered marker position).",
+    assumptions=["Verus + Z3 + vstd (UTF-8 theory); extractor with rewrites R3,R5,R6,R11,R16,R17,R23,R15,R31,R32,R33,R39,R40,R41 and the free rules",
                  "std contracts on trusted helpers: core::iter::Peekable (peekable / next / peek: the remaining items), partition_point (on a sorted Vec<usize>), chars().count(), str range indexing, str::get -> SliceIndex::get, core::cmp::min/max on usize",
                  "std contracts for core::str::CharIndices (next / next_back) and the helper vx_char_indices: the items are (off(cs,k), cs[k]) in order"],
-    not_covered=["Position::line_col (chars().peekable()): not in the Verus subset; bounded harness planned",
-                 "Error::new_from_pos / new_from_span / Display rendering: format!/String code, not covered",
-                 "Span::get(range: impl RangeBounds), Lines::next (Option::map with a closure)"],
+    not_covered=["the text fields of Error (line, continued_line) and Display rendering: format!/String code, decided by the lines_search enumeration only (bounded)",
+                 "Span::get(range: impl RangeBounds): RangeBounds has no specification; decided by the lines_search enumeration only (bounded)"],
 )
 
 PROPS["C16"] = dict(
